@@ -7010,73 +7010,56 @@ let is_pat_target t =
   (||) ((||) (is_kind KArrayPat t) (is_kind KObjectPat t))
     (is_kind (KOther ('I'::('n'::('v'::('a'::('l'::('i'::('d'::[])))))))) t)
 
-(** val hoist_target :
+(** val hoist_key :
     config -> node -> sp -> acc -> pstate -> (node * acc) * pstate **)
 
-let hoist_target c lhs span a p =
-  let Node (t, cs) = lhs in
+let hoist_key c prop span a p =
+  let Node (t, cs) = prop in
   (match t with
+   | K (k, clo, chi) ->
+     (match k with
+      | KComputed ->
+        (match cs with
+         | [] -> ((prop, a), p)
+         | e :: l ->
+           (match l with
+            | [] ->
+              if (||) (is_ident e) (is_lit e)
+              then ((prop, a), p)
+              else let (p0, p2) = get_temporal c e span IKExpr a p in
+                   let (id, a2) = p0 in
+                   (((Node ((K (KComputed, clo, chi)),
+                   ((match id with
+                     | Some i -> i
+                     | None -> e) :: []))), a2), p2)
+            | _ :: _ -> ((prop, a), p)))
+      | _ -> ((prop, a), p))
+   | _ -> ((prop, a), p))
+
+(** val hoist_member :
+    config -> node -> sp -> acc -> pstate -> ((node * acc) * pstate) option **)
+
+let hoist_member c t span a p =
+  let Node (t0, cs) = t in
+  (match t0 with
    | K (k, lo, hi) ->
      (match k with
       | KMember ->
         (match cs with
-         | [] -> ((lhs, a), p)
+         | [] -> None
          | obj :: l ->
            (match l with
-            | [] -> ((lhs, a), p)
+            | [] -> None
             | prop :: l0 ->
               (match l0 with
                | [] ->
                  if (||) (is_ident obj) (is_kind KThis obj)
                  then let p0 = (obj, a) in
                       let (obj', a1) = p0 in
-                      let Node (t0, cs0) = prop in
-                      (match t0 with
-                       | K (k0, clo, chi) ->
-                         (match k0 with
-                          | KComputed ->
-                            (match cs0 with
-                             | [] ->
-                               let p1 = (prop, a1) in
-                               let (prop', a2) = p1 in
-                               (((Node ((K (KMember, lo, hi)),
-                               (obj' :: (prop' :: [])))), a2), p)
-                             | e :: l1 ->
-                               (match l1 with
-                                | [] ->
-                                  if (||) (is_ident e) (is_lit e)
-                                  then let p1 = (prop, a1) in
-                                       let (prop', a2) = p1 in
-                                       (((Node ((K (KMember, lo, hi)),
-                                       (obj' :: (prop' :: [])))), a2), p)
-                                  else let (p1, p2) =
-                                         get_temporal c e span IKExpr a1 p
-                                       in
-                                       let (id, a2) = p1 in
-                                       let p3 = ((Node ((K (KComputed, clo,
-                                         chi)),
-                                         ((match id with
-                                           | Some i -> i
-                                           | None -> e) :: []))), a2)
-                                       in
-                                       let (prop', a3) = p3 in
-                                       (((Node ((K (KMember, lo, hi)),
-                                       (obj' :: (prop' :: [])))), a3), p2)
-                                | _ :: _ ->
-                                  let p1 = (prop, a1) in
-                                  let (prop', a2) = p1 in
-                                  (((Node ((K (KMember, lo, hi)),
-                                  (obj' :: (prop' :: [])))), a2), p)))
-                          | _ ->
-                            let p1 = (prop, a1) in
-                            let (prop', a2) = p1 in
-                            (((Node ((K (KMember, lo, hi)),
-                            (obj' :: (prop' :: [])))), a2), p))
-                       | _ ->
-                         let p1 = (prop, a1) in
-                         let (prop', a2) = p1 in
-                         (((Node ((K (KMember, lo, hi)),
-                         (obj' :: (prop' :: [])))), a2), p))
+                      let (p1, p2) = hoist_key c prop span a1 p in
+                      let (prop', a2) = p1 in
+                      Some (((Node ((K (KMember, lo, hi)),
+                      (obj' :: (prop' :: [])))), a2), p2)
                  else let (p0, p1) = get_temporal c obj span IKExpr a p in
                       let (id, a1) = p0 in
                       let p2 = ((match id with
@@ -7084,56 +7067,52 @@ let hoist_target c lhs span a p =
                                  | None -> obj), a1)
                       in
                       let (obj', a2) = p2 in
-                      let Node (t0, cs0) = prop in
-                      (match t0 with
-                       | K (k0, clo, chi) ->
-                         (match k0 with
-                          | KComputed ->
-                            (match cs0 with
-                             | [] ->
-                               let p3 = (prop, a2) in
-                               let (prop', a3) = p3 in
-                               (((Node ((K (KMember, lo, hi)),
-                               (obj' :: (prop' :: [])))), a3), p1)
-                             | e :: l1 ->
-                               (match l1 with
-                                | [] ->
-                                  if (||) (is_ident e) (is_lit e)
-                                  then let p3 = (prop, a2) in
-                                       let (prop', a3) = p3 in
-                                       (((Node ((K (KMember, lo, hi)),
-                                       (obj' :: (prop' :: [])))), a3), p1)
-                                  else let (p3, p4) =
-                                         get_temporal c e span IKExpr a2 p1
-                                       in
-                                       let (id0, a3) = p3 in
-                                       let p5 = ((Node ((K (KComputed, clo,
-                                         chi)),
-                                         ((match id0 with
-                                           | Some i -> i
-                                           | None -> e) :: []))), a3)
-                                       in
-                                       let (prop', a4) = p5 in
-                                       (((Node ((K (KMember, lo, hi)),
-                                       (obj' :: (prop' :: [])))), a4), p4)
-                                | _ :: _ ->
-                                  let p3 = (prop, a2) in
-                                  let (prop', a3) = p3 in
-                                  (((Node ((K (KMember, lo, hi)),
-                                  (obj' :: (prop' :: [])))), a3), p1)))
-                          | _ ->
-                            let p3 = (prop, a2) in
-                            let (prop', a3) = p3 in
-                            (((Node ((K (KMember, lo, hi)),
-                            (obj' :: (prop' :: [])))), a3), p1))
-                       | _ ->
-                         let p3 = (prop, a2) in
-                         let (prop', a3) = p3 in
-                         (((Node ((K (KMember, lo, hi)),
-                         (obj' :: (prop' :: [])))), a3), p1))
-               | _ :: _ -> ((lhs, a), p))))
-      | _ -> ((lhs, a), p))
-   | _ -> ((lhs, a), p))
+                      let (p3, p4) = hoist_key c prop span a2 p1 in
+                      let (prop', a3) = p3 in
+                      Some (((Node ((K (KMember, lo, hi)),
+                      (obj' :: (prop' :: [])))), a3), p4)
+               | _ :: _ -> None)))
+      | KSuperProp ->
+        (match cs with
+         | [] -> None
+         | obj :: l ->
+           (match l with
+            | [] -> None
+            | prop :: l0 ->
+              (match l0 with
+               | [] ->
+                 let (p0, p2) = hoist_key c prop span a p in
+                 let (prop', a2) = p0 in
+                 Some (((Node ((K (KSuperProp, lo, hi)),
+                 (obj :: (prop' :: [])))), a2), p2)
+               | _ :: _ -> None)))
+      | _ -> None)
+   | _ -> None)
+
+(** val peel_parens : node -> node **)
+
+let rec peel_parens n0 = match n0 with
+| Node (t, cs) ->
+  (match t with
+   | K (k, _, _) ->
+     (match k with
+      | KParen ->
+        (match cs with
+         | [] -> n0
+         | e :: l -> (match l with
+                      | [] -> peel_parens e
+                      | _ :: _ -> n0))
+      | _ -> n0)
+   | _ -> n0)
+
+(** val hoist_target :
+    config -> node -> sp -> acc -> pstate -> (node * acc) * pstate **)
+
+let hoist_target c lhs span a p =
+  let inner = if is_kind KParen lhs then peel_parens lhs else lhs in
+  (match hoist_member c inner span a p with
+   | Some r -> r
+   | None -> ((lhs, a), p))
 
 (** val assign_transform :
     config -> node -> pstate -> node option * pstate **)
